@@ -35,7 +35,7 @@ CFG = {'module': 'Dnp3.Props.C09',
                'read order = write order for every regenerated variation, generic field round trip, walk exactness (accepted '
                '=> input is the concatenation of the header images, payload length is what variation/qualifier/count imply), '
                'well-founded termination with strict progress, control-octet and header round trips, iterator agreement '
-               '(count, indices, slices) with the D2 overflow as explicit counterexample; model tied to the code by the '
+               '(count, indices, slices; octet-string ranges up to and including index 65535, no iterator panic); model tied to the code by the '
                'regenerated tables and by differential execution of the real parser, iterators, Display and builders',
  'level_note': 'trusted: Lean kernel (+ propext/Classical.choice/Quot.sound), translate.py + gen_variations.py, the '
                'correspondence harness; the Rust is modelled, not verified'}
